@@ -2,7 +2,7 @@
 """Run profiles with several seeds and list every failing check (all properties) with example replay files.
 usage: calibrate.py profile[,profile..] [seeds] [traces] [steps]"""
 import sys, json, os, collections
-sys.path.insert(0, "/verif")
+sys.path.insert(0, os.environ.get("VERIF_ROOT", "/verif"))
 from vlib import common as C, tracecheck as T
 profiles = sys.argv[1].split(",")
 seeds = int(sys.argv[2]) if len(sys.argv) > 2 else 2
